@@ -474,6 +474,38 @@ pub fn gen_params(rec: &mut Recorder, rng: &mut Rng, thorough: bool) {
             Err(_) => rec.impl_violation(format!("encoder/decoder built from derived parameters panic: F={flen} P={pk} WS={ws}")),
         }
     }
+    // the public route to a custom budget is the builder: whatever the order and the history of its setters, the
+    // configuration it builds is RFC 4.3's for the *last* packet size and the *last* budget given (exact-arithmetic oracle)
+    for it in 0..(if thorough { 3000 } else { 400 }) {
+        let pk = *rng.pick(&[10u16, 16, 24, 33, 48, 63, 64, 72, 128, 256, 500, 1024, 1400, 4096]);
+        let al: u64 = if pk >= 64 { 8 } else { 1 };
+        let t = (pk as u64) - (pk as u64 % al);
+        let f = rng.range(1, (if checked_build() { 140 } else { 600 }) * t).min(60000);
+        let x_nmax = (t + al * (t / (al * al)).max(1) - 1) / (al * (t / (al * al)).max(1));
+        let ws = match it % 4 { 0 => 10 * al * x_nmax + rng.below(40 * al * x_nmax), 1 => rng.range(10 * t, 400 * t), 2 => rng.logu(24).max(10 * al * x_nmax), _ => rng.range(t * 20, t * 2000) };
+        let want = match spec_gen(&table, f, pk, ws) { Some(w) => w, None => continue };
+        let order = rng.below(4);
+        let (pk0, ws0) = (*rng.pick(&[16u16, 64, 1024, 9000]), rng.logu(30).max(700_000));
+        let data = vec![0x5au8; f as usize];
+        let r = guarded(move || {
+            let mut b = raptorq::EncoderBuilder::new();
+            match order {
+                0 => { b.set_max_packet_size(pk); b.set_decoder_memory_requirement(ws); }
+                1 => { b.set_decoder_memory_requirement(ws); b.set_max_packet_size(pk); }
+                2 => { b.set_decoder_memory_requirement(ws0); b.set_max_packet_size(pk0); b.set_decoder_memory_requirement(ws); b.set_max_packet_size(pk); }
+                _ => { b.set_max_packet_size(pk0); b.set_decoder_memory_requirement(ws); b.set_max_packet_size(pk); }
+            }
+            oti_str(&b.build(&data).get_config())
+        });
+        let wants = format!("{f} {} {} {} {}", want.0, want.1, want.2, want.3);
+        let how = ["packet size then budget", "budget then packet size", "other values first, then budget, then packet size", "another packet size, budget, packet size"][order as usize];
+        match &r {
+            Ok(s) if *s != wants => rec.impl_violation(format!("EncoderBuilder (setters: {how}) with max_packet_size={pk} decoder_memory_requirement={ws} F={f} builds (F T Z N Al) = {s}, RFC 4.3 gives {wants}")),
+            Err(_) => rec.impl_violation(format!("EncoderBuilder (setters: {how}) with max_packet_size={pk} decoder_memory_requirement={ws} F={f} panics, RFC 4.3 gives {wants}")),
+            _ => {}
+        }
+        rec.count("builder_setter_histories");
+    }
     // monotonicity in the memory budget (metamorphic, directly on the implementation)
     for _ in 0..(if thorough { 20000 } else { 2000 }) {
         let pk = *rng.pick(&pks);
